@@ -5,6 +5,7 @@ import GateryModel.C17.LemmasCrc
 import GateryModel.C17.LemmasExtra
 import GateryModel.C17.LemmasTreeReg
 import GateryModel.C17.Historic
+import GateryModel.C17.LemmasGraySync
 /-!
 # C17 — library arithmetic and coding primitives equal their mathematical definitions
 
@@ -240,6 +241,41 @@ theorem gray_is_reflected (w x : Nat) (hx : x < 2 ^ w) : grayEncode x = reflecte
 
 example : grayEncode 7 = 4 ∧ grayEncode 8 = 12 := by decide
 example : grayDecode 5 (grayEncode 19) = some 19 := by decide
+
+/-! ## synchronizeGrayCode (gray-coded clock domain crossing) -/
+
+/-- At power-on the overload with a reset value delivers `reset`, for every width, reset value, chain length and with or without
+the input-side register (every register holds `grayEncode reset`, and `grayDecode (grayEncode r) = r`). -/
+theorem synchronizeGrayCode_power_on (w n r : Nat) (inStage : Bool) (hw : 0 < w) (hr : r < 2 ^ w) (hn : 0 < n) :
+    graySyncOut ⟨w, n, inStage, some r⟩ (graySyncInit ⟨w, n, inStage, some r⟩) = some r :=
+  graySync_reset_phase w n r inStage hw hr hn [] (by simpa [countB] using hn)
+
+/-- …and it keeps delivering `reset` for as long as the chain holds reset values: through any sequence of clock-edge instants of
+the two domains (any interleaving, coincident edges included, any inputs) in which the output-domain chain latched fewer than
+`outStages` times. -/
+theorem synchronizeGrayCode_reset_phase (w n r : Nat) (inStage : Bool) (hw : 0 < w) (hr : r < 2 ^ w) (hn : 0 < n)
+    (es : List (Bool × Bool × Nat)) (hes : countB es < n) :
+    graySyncOut ⟨w, n, inStage, some r⟩ (graySyncRun ⟨w, n, inStage, some r⟩ (graySyncInit ⟨w, n, inStage, some r⟩) es) = some r :=
+  graySync_reset_phase w n r inStage hw hr hn es hes
+
+/-- Afterwards the output follows the input: once the input-side register has taken the held input `x` (or there is no such
+register), `outStages` latches of the chain — under any interleaving with input-clock edges — put `x` on the output.  Holds for
+both overloads and from any chain contents. -/
+theorem synchronizeGrayCode_settles (c : GraySync) (x : Nat) (hw : 0 < c.w) (hx : x < 2 ^ c.w) (s : GraySyncState)
+    (hlen : s.stages.length = c.outStages) (hn : 0 < c.outStages)
+    (hin : c.inStage = true → s.inReg = some (grayEncode x))
+    (es : List (Bool × Bool × Nat)) (hes : ∀ e ∈ es, e.2.2 = x) (hcnt : c.outStages ≤ countB es) :
+    graySyncOut c (graySyncRun c s es) = some x :=
+  graySync_settles c x hw hx s hlen hn hin es hes hcnt
+
+/-- an input-clock edge loads the input-side register with the gray code of the input -/
+theorem synchronizeGrayCode_in_stage (c : GraySync) (s : GraySyncState) (b : Bool) (x : Nat) :
+    (graySyncStep c s true b x).inReg = some (grayEncode x) := by
+  simp [graySyncStep]
+
+example : graySyncOut ⟨3, 3, true, some 5⟩ (graySyncInit ⟨3, 3, true, some 5⟩) = some 5 := by decide
+example : graySyncOut ⟨3, 2, true, none⟩ (graySyncRun ⟨3, 2, true, none⟩ (graySyncInit ⟨3, 2, true, none⟩)
+    [(true, true, 6), (false, true, 6), (false, true, 6)]) = some 6 := by decide
 
 /-! ## min / max -/
 
